@@ -12,6 +12,7 @@ import sys
 import types
 
 import numpy as _np
+import z3
 
 from . import core, npf, tokens
 from .core import SR, SC, SI, SB, is_sym, HarnessError
@@ -174,6 +175,37 @@ class SxDict(dict):
             self[k] = v
 
 
+class _SetState:
+    sym_order = False
+
+
+set_state = _SetState()
+
+
+class sx_set(set):
+    """set whose iteration order over non-integer elements is ARBITRARY when set_state.sym_order is
+    on (one fork per permutation; models identity-hashed objects and strings, whose order depends
+    on addresses / hash seed).  Sets of ints iterate as CPython does."""
+
+    def __iter__(self):
+        items = list(set.__iter__(self))
+        if not set_state.sym_order or len(items) < 2 or all(isinstance(x, int) for x in items):
+            return iter(items)
+        if len(items) > 4:
+            raise HarnessError('symbolic iteration order over a set of %d elements' % len(items))
+        # canonical base order, then a solver-chosen permutation
+        items.sort(key=lambda x: getattr(x, 'n', None) if isinstance(getattr(x, 'n', None), int) else str(x))
+        c = core.ctx()
+        out = []
+        rest = list(items)
+        while len(rest) > 1:
+            k = SI(c.fresh('setorder', 'int'))
+            c.assume(z3.And(k.t >= 0, k.t < len(rest)))
+            out.append(rest.pop(k.concretize()))
+        out.extend(rest)
+        return iter(out)
+
+
 class _Opaque:
     __slots__ = ('k',)
 
@@ -311,7 +343,7 @@ def load(repo=None, patches=None):
         __sx_np__=npf.NP, __sx_npf__=npf, __sx_mod__=tokens.sx_mod, __sx_dict__=SxDict,
         __sx_mods__=sh.mods,
         float=sx_float, int=sx_int, complex=sx_complex, min=core.smin, max=core.smax,
-        round=sx_round,
+        round=sx_round, set=sx_set,
     )
     for name in FILES:
         path = os.path.join(repo, 'mininec', name + '.py')
